@@ -231,6 +231,7 @@ func runC14(p *core.Program, r *core.Report) {
 	noAnswerBeforeTheScan(c, "gogu.Keys", "gogu.Values", "gogu.MapValues", "gogu.MapKeys", "gogu.MapEvery", "gogu.MapSome", "gogu.MapContains", "gogu.MapUnique", "gogu.MapCollection", "gogu.Find", "gogu.FindKey", "gogu.FindByKey", "gogu.Invert", "gogu.Pick", "gogu.PickBy", "gogu.Omit", "gogu.OmitBy", "gogu.Pluck", "gogu.PartitionMap", "gogu.SliceToMap", "gogu.FilterMap", "gogu.FilterMapCollection", "gogu.Filter2DMapCollection")
 	resultUntouchedAfterTheScan(c, "gogu.Keys", "gogu.Values", "gogu.MapValues", "gogu.MapKeys", "gogu.MapEvery", "gogu.MapSome", "gogu.MapContains", "gogu.MapUnique", "gogu.MapCollection", "gogu.Find", "gogu.FindKey", "gogu.FindByKey", "gogu.Invert", "gogu.Pick", "gogu.PickBy", "gogu.Omit", "gogu.OmitBy", "gogu.Pluck", "gogu.PartitionMap", "gogu.SliceToMap", "gogu.FilterMap", "gogu.FilterMapCollection", "gogu.Filter2DMapCollection")
 	hygiene(c, "map.go", "filter.go")
+	noSingledOutValue(c, []string{"map.go"}, nil)
 	table := map[string][]c14Want{
 		"gogu.Keys":          {{kind: "store", key: "iv", val: "range(m)#1"}},
 		"gogu.Values":        {{kind: "store", key: "iv", val: "range(m)#2"}},
